@@ -1,5 +1,396 @@
-import Plonk.Model.Composer
+/-
+  Property C11 — truncation and bit decomposition return the canonical bits.
+
+  "`component_truncate::<N>` is satisfiable for every input and returns exactly the canonical
+  value of the input modulo `2^N`, for every `N` up to 254.  `component_decomposition::<N>` is
+  satisfiable exactly when the canonical value is below `2^N` and then returns its `N`
+  little-endian bits — no other bit vector satisfies it."
+
+  Conventions (as in C08/C09).  `c` is the composer state before the call,
+  `c' := ((gadget …).run c).2` the state after it, `((gadget …).run c).1` what it returns;
+  `w : Nat → Nat` is an arbitrary assignment of values to witness indices — everything a prover
+  may choose: `high`, `diff`, `inverse`, `product`, `isTop`, `guard`, every range accumulator,
+  every bit and accumulator of the decomposition; `c''.rowsHoldW w c.gates.size c'.gates.size` says
+  that the rows appended by the call hold under `w`, read in `c'` or in any later state `c''`
+  (`Extends c' c''`); `toF : Nat → F = ZMod R`; `(toF a).val` is the canonical value.
+  `WF c` (C08) = all witness values reduced ∧ no public input recorded for a row that does not
+  exist yet (`PiFresh` of C09); it holds for `initialized` and is preserved by every component
+  (`…_extends`).
+
+  Everything is proved at full strength; there is no `_partial` theorem.
+
+  Results.
+    * truncation (`N ≤ Generated.TRUNCATE_MAX_BITS = 254`, split width
+      `Generated.SPLIT_TOTAL_BITS = 255`; the proofs go through these constants):
+      `componentTruncate_extends`, `componentTruncate_sound`, `componentTruncate_complete`
+      (always satisfiable, also for `N = 0` and `N = 255`), `truncate_exact`, `truncate_unique`;
+      the same for the shared helper `bind_truncation_split` (used by the logic component, C10).
+    * decomposition: `componentDecomposition_extends`, `componentDecomposition_sound` (`N ≤ 254`),
+      `componentDecomposition_complete` (every `N`), `decomposition_exact`,
+      `decomposition_unique` (`N ≤ 254`).
+    * **Finding (known defect, recorded in `known-findings.txt`, keys
+      `decomposition-alias:N=255|256:…`)**: the property's "no other bit vector satisfies it" is
+      FALSE for the two largest widths the crate allows, `N ∈ {255, 256}`:
+      `decomposition_alias_255_256` exhibits, for `x = 0`, two assignments satisfying every row
+      of the circuit with different bit vectors (all zeros / the bits of `R`).  There is no
+      `< r` guard in `component_decomposition`.  Uniqueness is proved for `N ≤ 254` only, and
+      that bound is sharp in the sense that `2^254 < R < 2^255`.
+
+  Forced hypotheses (none is a defect):
+    * `WF c` — composer invariant, see above.
+    * `toF (w 0) = 0` — the zero witness (index 0) is pinned by row 0 of
+      `Composer::initialized()`, not by the components; the range checks pad with it and the
+      decomposition starts its accumulator from it.
+    * completeness: the input witness is allocated (`x < c.wit.size`) and `c.val 0 = 0`.
+    * `bindTruncationSplit_sound`: `low` must already be range-bounded (`(w low) < 2^N`) — this
+      is the documented contract of the Rust helper ("`low` must already be range-checked").
+    * `…_exact`: `x = 0 → v = 0` (if the input is the zero witness itself its value is 0) and
+      the values are canonical (`< R`).
+-/
+import Plonk.Proofs.Decomp
 namespace Plonk.Props.C11
-open Plonk
-theorem placeholder_bounds : Generated.RANGE_MAX_BITS = 256 ∧ Generated.LOGIC_MAX_PAIRS = 127 ∧ Generated.TRUNCATE_MAX_BITS = 254 ∧ Generated.SPLIT_TOTAL_BITS = 255 := by decide
+open Plonk Plonk.Composer
+
+/-- the bounds used by the source -/
+theorem placeholder_bounds : Generated.RANGE_MAX_BITS = 256 ∧ Generated.LOGIC_MAX_PAIRS = 127 ∧
+    Generated.TRUNCATE_MAX_BITS = 254 ∧ Generated.SPLIT_TOTAL_BITS = 255 := by decide
+
+/-! ## `component_truncate` -/
+
+/-- `component_truncate::<n>` only appends: `c'` extends `c`; the numbers of gates and witnesses
+    appended depend on `n` only; the last appended gate is plain (reads no next-row wire, so
+    later gates do not disturb the component); `WF` is preserved; the returned witness is the
+    first one allocated. -/
+theorem componentTruncate_extends (n x : Nat) (c : Composer) :
+    Extends c ((componentTruncate n x).run c).2 ∧
+    ((componentTruncate n x).run c).2.gates.size = c.gates.size + ctGateCount n ∧
+    ((componentTruncate n x).run c).2.wit.size = c.wit.size + ctWitCount n ∧
+    (∀ i, i + 1 = ((componentTruncate n x).run c).2.gates.size →
+      Gate.plain (((componentTruncate n x).run c).2.gateAt i)) ∧
+    (WF c → WF ((componentTruncate n x).run c).2) ∧
+    ((componentTruncate n x).run c).1 = c.wit.size :=
+  Composer.componentTruncate_extends n x c
+
+/-- non-vacuity: `component_truncate::<3>` costs 88 gates and 269 witnesses; `initialized` is
+    well formed -/
+example : ctGateCount 3 = 88 ∧ ctWitCount 3 = 269 ∧ WF initialized :=
+  ⟨by decide, by decide, initialized_wf⟩
+
+/-- **Soundness of truncation.**  For every `n ≤ 254` and *every* assignment `w` with the zero
+    witness at 0: if the rows appended by `component_truncate::<n>(x)` hold — read in `c'` or any
+    later state — the returned witness carries the canonical value of `x` modulo `2^n`. -/
+theorem componentTruncate_sound (n x : Nat) (c : Composer)
+    (hn : n ≤ Generated.TRUNCATE_MAX_BITS) (h : WF c) (c'' : Composer)
+    (hext : Extends ((componentTruncate n x).run c).2 c'') (w : Nat → Nat) (h0 : toF (w 0) = 0)
+    (hrows : c''.rowsHoldW w c.gates.size ((componentTruncate n x).run c).2.gates.size) :
+    (toF (w ((componentTruncate n x).run c).1)).val = (toF (w x)).val % 2 ^ n :=
+  Composer.componentTruncate_sound n x c hn h c'' hext w h0 hrows
+
+/-- **Completeness of truncation** (always satisfiable).  For a well-formed state and any value
+    of the allocated input, the model's own table satisfies the appended rows (read in any later
+    state) and the returned witness holds `x mod 2^n`.  Holds for every `n ≤ 255`, in particular
+    for all `n ≤ 254`. -/
+theorem componentTruncate_complete (n x : Nat) (c : Composer)
+    (hn : n ≤ Generated.SPLIT_TOTAL_BITS) (h : WF c) (hx : x < c.wit.size) (hz : c.val 0 = 0)
+    (c'' : Composer) (hext : Extends ((componentTruncate n x).run c).2 c'') :
+    c''.rowsHoldW c''.val c.gates.size ((componentTruncate n x).run c).2.gates.size ∧
+    ((componentTruncate n x).run c).2.val ((componentTruncate n x).run c).1 = c.val x % 2 ^ n :=
+  Composer.componentTruncate_complete n x c hn h hx hz c'' hext
+
+/-- non-vacuity of soundness and completeness together: on `initialized`, witness 2 holds 6;
+    `component_truncate::<2>(2)` is satisfied by the model's table, soundness applied to that
+    table gives `low = 6 mod 4`, and the model stores `6 % 2^2` there. -/
+example :
+    (toF (((componentTruncate 2 2).run initialized).2.val ((componentTruncate 2 2).run initialized).1)).val
+      = (toF (((componentTruncate 2 2).run initialized).2.val 2)).val % 2 ^ 2 ∧
+    ((componentTruncate 2 2).run initialized).2.val ((componentTruncate 2 2).run initialized).1
+      = initialized.val 2 % 2 ^ 2 :=
+  ⟨componentTruncate_sound 2 2 initialized (by decide) initialized_wf _ (Extends.refl _) _
+      (by rw [((componentTruncate_extends 2 2 initialized).1).val_eq (by decide),
+            initialized_val_zero]; simp)
+      (componentTruncate_complete 2 2 initialized (by decide) initialized_wf (by decide)
+        initialized_val_zero _ (Extends.refl _)).1,
+   (componentTruncate_complete 2 2 initialized (by decide) initialized_wf (by decide)
+        initialized_val_zero _ (Extends.refl _)).2⟩
+
+/-- **C11, truncation.**  For every `n ≤ 254`, every canonical input value `v` and every
+    canonical value `l`: the rows appended by `component_truncate::<n>(x)` are satisfiable by an
+    assignment giving `x` the value `v` and the returned witness the value `l` (zero witness 0)
+    exactly when `l = v mod 2^n`.  In particular the component is satisfiable for every input. -/
+theorem truncate_exact (n x : Nat) (c : Composer) (hn : n ≤ Generated.TRUNCATE_MAX_BITS)
+    (h : WF c) (hx : x < c.wit.size) (v l : Nat) (hv : v < R) (hl : l < R) (hx0 : x = 0 → v = 0) :
+    (∃ w : Nat → Nat, w x = v ∧ w 0 = 0 ∧ w ((componentTruncate n x).run c).1 = l ∧
+        ((componentTruncate n x).run c).2.rowsHoldW w c.gates.size
+          ((componentTruncate n x).run c).2.gates.size) ↔ l = v % 2 ^ n :=
+  truncate_exact_core n x c hn h hx v l hv hl hx0
+
+/-- non-vacuity: both sides occur — on `initialized` with `x = 2`, for the input value 13 and
+    `n = 3` the output 5 is accepted and the output 13 is not. -/
+example :
+    (∃ w : Nat → Nat, w 2 = 13 ∧ w 0 = 0 ∧ w ((componentTruncate 3 2).run initialized).1 = 5 ∧
+      ((componentTruncate 3 2).run initialized).2.rowsHoldW w initialized.gates.size
+        ((componentTruncate 3 2).run initialized).2.gates.size) ∧
+    ¬ (∃ w : Nat → Nat, w 2 = 13 ∧ w 0 = 0 ∧ w ((componentTruncate 3 2).run initialized).1 = 13 ∧
+      ((componentTruncate 3 2).run initialized).2.rowsHoldW w initialized.gates.size
+        ((componentTruncate 3 2).run initialized).2.gates.size) := by
+  constructor
+  · exact (truncate_exact 3 2 initialized (by decide) initialized_wf (by decide) 13 5
+      (by decide +kernel) (by decide +kernel) (by decide)).mpr (by norm_num)
+  · rw [truncate_exact 3 2 initialized (by decide) initialized_wf (by decide) 13 13
+      (by decide +kernel) (by decide +kernel) (by decide)]
+    norm_num
+
+/-- the output is unique: two satisfying assignments that agree (in the field) on the input agree
+    on the returned witness -/
+theorem truncate_unique (n x : Nat) (c : Composer) (hn : n ≤ Generated.TRUNCATE_MAX_BITS)
+    (h : WF c) (w1 w2 : Nat → Nat) (h1 : toF (w1 0) = 0) (h2 : toF (w2 0) = 0)
+    (hx : toF (w1 x) = toF (w2 x))
+    (hr1 : ((componentTruncate n x).run c).2.rowsHoldW w1 c.gates.size
+      ((componentTruncate n x).run c).2.gates.size)
+    (hr2 : ((componentTruncate n x).run c).2.rowsHoldW w2 c.gates.size
+      ((componentTruncate n x).run c).2.gates.size) :
+    toF (w1 ((componentTruncate n x).run c).1) = toF (w2 ((componentTruncate n x).run c).1) := by
+  apply ZMod.val_injective
+  rw [componentTruncate_sound n x c hn h _ (Extends.refl _) w1 h1 hr1,
+    componentTruncate_sound n x c hn h _ (Extends.refl _) w2 h2 hr2, hx]
+
+example (w1 w2 : Nat → Nat) (h1 : toF (w1 0) = 0) (h2 : toF (w2 0) = 0)
+    (hx : toF (w1 2) = toF (w2 2))
+    (hr1 : ((componentTruncate 3 2).run initialized).2.rowsHoldW w1 initialized.gates.size
+      ((componentTruncate 3 2).run initialized).2.gates.size)
+    (hr2 : ((componentTruncate 3 2).run initialized).2.rowsHoldW w2 initialized.gates.size
+      ((componentTruncate 3 2).run initialized).2.gates.size) :
+    toF (w1 ((componentTruncate 3 2).run initialized).1)
+      = toF (w2 ((componentTruncate 3 2).run initialized).1) :=
+  truncate_unique 3 2 initialized (by decide) initialized_wf w1 w2 h1 h2 hx hr1 hr2
+
+/-! ## `bind_truncation_split` (shared with the logic component) -/
+
+/-- `bind_truncation_split` only appends; counts depend on `n` only; last gate plain; `WF`
+    preserved. -/
+theorem bindTruncationSplit_extends (input low n : Nat) (c : Composer) :
+    Extends c ((bindTruncationSplit input low n).run c).2 ∧
+    ((bindTruncationSplit input low n).run c).2.gates.size = c.gates.size + btsGateCount n ∧
+    ((bindTruncationSplit input low n).run c).2.wit.size = c.wit.size + btsWitCount n ∧
+    (∀ i, i + 1 = ((bindTruncationSplit input low n).run c).2.gates.size →
+      Gate.plain (((bindTruncationSplit input low n).run c).2.gateAt i)) ∧
+    (WF c → WF ((bindTruncationSplit input low n).run c).2) :=
+  Composer.bindTruncationSplit_extends input low n c
+
+example : btsGateCount 4 = 85 ∧ btsWitCount 4 = 266 := ⟨by decide, by decide⟩
+
+/-- **Soundness of the split binding**, `n ≤ 254`: for every assignment `w` (zero witness 0) in
+    which `low` is range-bounded, the appended rows force `low = input mod 2^n` on canonical
+    values. -/
+theorem bindTruncationSplit_sound (input low n : Nat) (c : Composer)
+    (hn : n ≤ Generated.TRUNCATE_MAX_BITS) (h : WF c) (c'' : Composer)
+    (hext : Extends ((bindTruncationSplit input low n).run c).2 c'') (w : Nat → Nat)
+    (h0 : toF (w 0) = 0) (hL : (toF (w low)).val < 2 ^ n)
+    (hrows : c''.rowsHoldW w c.gates.size ((bindTruncationSplit input low n).run c).2.gates.size) :
+    (toF (w low)).val = (toF (w input)).val % 2 ^ n :=
+  Composer.bindTruncationSplit_sound input low n c hn h c'' hext w h0 hL hrows
+
+/-- **Completeness of the split binding** (`n ≤ 255`): if the model's value of `low` is
+    `input mod 2^n`, the model's own table satisfies the appended rows. -/
+theorem bindTruncationSplit_complete (input low n : Nat) (c : Composer)
+    (hn : n ≤ Generated.SPLIT_TOTAL_BITS) (h : WF c) (hinput : input < c.wit.size)
+    (hlow : low < c.wit.size) (hz : c.val 0 = 0) (hval : c.val low = c.val input % 2 ^ n)
+    (c'' : Composer) (hext : Extends ((bindTruncationSplit input low n).run c).2 c'') :
+    c''.rowsHoldW c''.val c.gates.size ((bindTruncationSplit input low n).run c).2.gates.size :=
+  Composer.bindTruncationSplit_complete input low n c hn h hinput hlow hz hval c'' hext
+
+/-- non-vacuity: on `initialized`, witness 4 holds 7 and witness 1 holds 1 `= 7 mod 2`; binding
+    `low := 1` to `input := 4` with `n = 1` is satisfied by the model's table, and soundness
+    applied to that table returns `1 = 7 mod 2`. -/
+example :
+    (toF (((bindTruncationSplit 4 1 1).run initialized).2.val 1)).val
+      = (toF (((bindTruncationSplit 4 1 1).run initialized).2.val 4)).val % 2 ^ 1 := by
+  have hext := (bindTruncationSplit_extends 4 1 1 initialized).1
+  refine bindTruncationSplit_sound 4 1 1 initialized (by decide) initialized_wf _ (Extends.refl _) _
+    ?_ ?_
+    (bindTruncationSplit_complete 4 1 1 initialized (by decide) initialized_wf (by decide)
+      (by decide) initialized_val_zero (by decide +kernel) _ (Extends.refl _))
+  · rw [hext.val_eq (by decide), initialized_val_zero]; simp
+  · rw [hext.val_eq (by decide), initialized_val_one, val_toF_of_lt R_gt_one]; norm_num
+
+/-! ## `component_decomposition` -/
+
+/-- `component_decomposition::<n>` appends exactly `2n + 1` gates, all plain, and `2n`
+    witnesses; `WF` is preserved; the returned bit witnesses are `W, W+2, …, W+2(n−1)` with
+    `W = c.wit.size` (little endian). -/
+theorem componentDecomposition_extends (n x : Nat) (c : Composer) :
+    Appends c ((componentDecomposition n x).run c).2 (2 * n + 1) (2 * n) ∧
+    (WF c → WF ((componentDecomposition n x).run c).2) ∧
+    ((componentDecomposition n x).run c).1 = (List.range n).map (fun j => c.wit.size + 2 * j) :=
+  Composer.componentDecomposition_extends n x c
+
+example : ((componentDecomposition 3 2).run initialized).1 = [6, 8, 10] := by
+  rw [(componentDecomposition_extends 3 2 initialized).2.2, initialized_wit_size]; rfl
+
+/-- **Soundness of decomposition**, `n ≤ 254`: for every assignment `w` with the zero witness at
+    0, if the appended rows hold (read in any later state) then the canonical value of `x` is
+    below `2^n` and the `j`-th returned bit witness carries bit `j` of that value. -/
+theorem componentDecomposition_sound (n x : Nat) (c : Composer) (hn : n ≤ 254) (h : WF c)
+    (c'' : Composer) (hext : Extends ((componentDecomposition n x).run c).2 c'') (w : Nat → Nat)
+    (h0 : toF (w 0) = 0)
+    (hrows : c''.rowsHoldW w c.gates.size ((componentDecomposition n x).run c).2.gates.size) :
+    (toF (w x)).val < 2 ^ n ∧
+    ∀ j < n, (toF (w (((componentDecomposition n x).run c).1.getD j 0))).val
+      = bit (toF (w x)).val j := by
+  obtain ⟨h1, h2, -⟩ := Composer.componentDecomposition_sound n x c hn h c'' hext w h0 hrows
+  refine ⟨h1, fun j hj => ?_⟩
+  rw [componentDecomposition_getD n x c j hj]
+  exact h2 j hj
+
+/-- **Completeness of decomposition** (every width): if the model's value of the allocated input
+    is below `2^n`, the model's own table satisfies the appended rows (read in any later state)
+    and the `j`-th returned bit witness holds bit `j` of the value. -/
+theorem componentDecomposition_complete (n x : Nat) (c : Composer) (h : WF c)
+    (hx : x < c.wit.size) (hz : c.val 0 = 0) (hv : c.val x < 2 ^ n) (c'' : Composer)
+    (hext : Extends ((componentDecomposition n x).run c).2 c'') :
+    c''.rowsHoldW c''.val c.gates.size ((componentDecomposition n x).run c).2.gates.size ∧
+    ∀ j < n, ((componentDecomposition n x).run c).2.val
+      (((componentDecomposition n x).run c).1.getD j 0) = bit (c.val x) j := by
+  obtain ⟨h1, h2⟩ := Composer.componentDecomposition_complete n x c h hx hz hv c'' hext
+  refine ⟨h1, fun j hj => ?_⟩
+  rw [componentDecomposition_getD n x c j hj]
+  exact h2 j hj
+
+/-- non-vacuity: on `initialized`, witness 2 holds `6 < 2^3`; the 3-bit decomposition is
+    satisfied by the model's table; soundness applied to that table yields the bits of 6. -/
+example :
+    (toF (((componentDecomposition 3 2).run initialized).2.val 2)).val < 2 ^ 3 ∧
+    ∀ j < 3, (toF (((componentDecomposition 3 2).run initialized).2.val
+        (((componentDecomposition 3 2).run initialized).1.getD j 0))).val
+      = bit (toF (((componentDecomposition 3 2).run initialized).2.val 2)).val j :=
+  componentDecomposition_sound 3 2 initialized (by decide) initialized_wf _ (Extends.refl _) _
+    (by rw [(componentDecomposition_extends 3 2 initialized).1.ext.val_eq (by decide),
+          initialized_val_zero]; simp)
+    (componentDecomposition_complete 3 2 initialized initialized_wf (by decide)
+      initialized_val_zero (by decide +kernel) _ (Extends.refl _)).1
+
+/-- **C11, decomposition** (`n ≤ 254`).  For a canonical input value `v` and canonical values
+    `β j` of the returned bit witnesses: a satisfying assignment with these values exists exactly
+    when `v < 2^n` and `β` is the little-endian bit vector of `v` — the component is satisfiable
+    iff the value is below `2^n`, and no other bit vector satisfies it. -/
+theorem decomposition_exact (n x : Nat) (c : Composer) (hn : n ≤ 254) (h : WF c)
+    (hx : x < c.wit.size) (v : Nat) (β : Nat → Nat) (hv : v < R) (hβ : ∀ j < n, β j < R)
+    (hx0 : x = 0 → v = 0) :
+    (∃ w : Nat → Nat, w x = v ∧ w 0 = 0 ∧
+        (∀ j < n, w (((componentDecomposition n x).run c).1.getD j 0) = β j) ∧
+        ((componentDecomposition n x).run c).2.rowsHoldW w c.gates.size
+          ((componentDecomposition n x).run c).2.gates.size) ↔
+      (v < 2 ^ n ∧ ∀ j < n, β j = bit v j) := by
+  have e : ∀ j < n, ((componentDecomposition n x).run c).1.getD j 0 = c.wit.size + 2 * j :=
+    fun j hj => componentDecomposition_getD n x c j hj
+  rw [← decomposition_exact_core n x c hn h hx v β hv hβ hx0]
+  constructor
+  · rintro ⟨w, h1, h2, h3, h4⟩
+    exact ⟨w, h1, h2, fun j hj => by rw [← e j hj]; exact h3 j hj, h4⟩
+  · rintro ⟨w, h1, h2, h3, h4⟩
+    exact ⟨w, h1, h2, fun j hj => by rw [e j hj]; exact h3 j hj, h4⟩
+
+/-- non-vacuity: both sides occur — on `initialized` with `x = 2` and `n = 3`: the value 5 with
+    bits `1,0,1` is accepted; the value 5 with bits `1,1,1` is not; the value 9 is not accepted
+    with any bits. -/
+example :
+    (∃ w : Nat → Nat, w 2 = 5 ∧ w 0 = 0 ∧
+      (∀ j < 3, w (((componentDecomposition 3 2).run initialized).1.getD j 0) = bit 5 j) ∧
+      ((componentDecomposition 3 2).run initialized).2.rowsHoldW w initialized.gates.size
+        ((componentDecomposition 3 2).run initialized).2.gates.size) ∧
+    ¬ (∃ w : Nat → Nat, w 2 = 5 ∧ w 0 = 0 ∧
+      (∀ j < 3, w (((componentDecomposition 3 2).run initialized).1.getD j 0) = 1) ∧
+      ((componentDecomposition 3 2).run initialized).2.rowsHoldW w initialized.gates.size
+        ((componentDecomposition 3 2).run initialized).2.gates.size) ∧
+    ∀ β : Nat → Nat, (∀ j < 3, β j < R) →
+      ¬ (∃ w : Nat → Nat, w 2 = 9 ∧ w 0 = 0 ∧
+        (∀ j < 3, w (((componentDecomposition 3 2).run initialized).1.getD j 0) = β j) ∧
+        ((componentDecomposition 3 2).run initialized).2.rowsHoldW w initialized.gates.size
+          ((componentDecomposition 3 2).run initialized).2.gates.size) := by
+  have hR : (1 : Nat) < R := R_gt_one
+  refine ⟨?_, ?_, ?_⟩
+  · refine (decomposition_exact 3 2 initialized (by decide) initialized_wf (by decide) 5 (bit 5)
+      (by decide +kernel) (fun j _ => ?_) (by decide)).mpr ⟨by norm_num, fun _ _ => rfl⟩
+    have := bit_le_one 5 j; omega
+  · rw [decomposition_exact 3 2 initialized (by decide) initialized_wf (by decide) 5 (fun _ => 1)
+      (by decide +kernel) (fun _ _ => hR) (by decide)]
+    rintro ⟨-, hb⟩
+    have := hb 1 (by norm_num)
+    revert this; decide
+  · intro β hβ
+    rw [decomposition_exact 3 2 initialized (by decide) initialized_wf (by decide) 9 β
+      (by decide +kernel) hβ (by decide)]
+    rintro ⟨h9, -⟩
+    revert h9; decide
+
+/-- uniqueness of the bit vector for `n ≤ 254`: two satisfying assignments that agree (in the
+    field) on the input agree on every returned bit witness -/
+theorem decomposition_unique (n x : Nat) (c : Composer) (hn : n ≤ 254) (h : WF c)
+    (w1 w2 : Nat → Nat) (h1 : toF (w1 0) = 0) (h2 : toF (w2 0) = 0)
+    (hx : toF (w1 x) = toF (w2 x))
+    (hr1 : ((componentDecomposition n x).run c).2.rowsHoldW w1 c.gates.size
+      ((componentDecomposition n x).run c).2.gates.size)
+    (hr2 : ((componentDecomposition n x).run c).2.rowsHoldW w2 c.gates.size
+      ((componentDecomposition n x).run c).2.gates.size) :
+    ∀ j < n, toF (w1 (((componentDecomposition n x).run c).1.getD j 0))
+      = toF (w2 (((componentDecomposition n x).run c).1.getD j 0)) := by
+  intro j hj
+  apply ZMod.val_injective
+  rw [(componentDecomposition_sound n x c hn h _ (Extends.refl _) w1 h1 hr1).2 j hj,
+    (componentDecomposition_sound n x c hn h _ (Extends.refl _) w2 h2 hr2).2 j hj, hx]
+
+example (w1 w2 : Nat → Nat) (h1 : toF (w1 0) = 0) (h2 : toF (w2 0) = 0)
+    (hx : toF (w1 2) = toF (w2 2))
+    (hr1 : ((componentDecomposition 3 2).run initialized).2.rowsHoldW w1 initialized.gates.size
+      ((componentDecomposition 3 2).run initialized).2.gates.size)
+    (hr2 : ((componentDecomposition 3 2).run initialized).2.rowsHoldW w2 initialized.gates.size
+      ((componentDecomposition 3 2).run initialized).2.gates.size) :
+    ∀ j < 3, toF (w1 (((componentDecomposition 3 2).run initialized).1.getD j 0))
+      = toF (w2 (((componentDecomposition 3 2).run initialized).1.getD j 0)) :=
+  decomposition_unique 3 2 initialized (by decide) initialized_wf w1 w2 h1 h2 hx hr1 hr2
+
+/-! ## the defect: widths 255 and 256 -/
+
+/-- **Negation of uniqueness for `n ∈ {255, 256}`** (known finding; no `< r` guard in
+    `component_decomposition`).  On `aliasBase` = `Composer::initialized()` plus one witness
+    `x = 6` holding 0, there are two assignments `w1`, `w2` that
+      * agree with the model's table on all seven pre-existing witnesses (so `x ↦ 0`, zero witness
+        `↦ 0`),
+      * satisfy **every** row of the circuit — the four rows of `initialized` and the `2n + 1` rows
+        appended by `component_decomposition::<n>(x)`,
+      * and differ on the first returned bit witness (index 7): `w1` carries the honest bit 0,
+        `w2` carries bit 0 of `R`, which is 1 (`w2` carries the bits of `R`, recomposing to
+        `R ≡ 0`).
+    Hence "no other bit vector satisfies it" fails for the two largest widths the crate allows
+    (`Generated.DECOMP_MAX_BITS = 256`). -/
+theorem decomposition_alias_255_256 (n : Nat) (hn : n = 255 ∨ n = Generated.DECOMP_MAX_BITS) :
+    ∃ w1 w2 : Nat → Nat,
+      (∀ i < 7, w1 i = aliasBase.val i) ∧ (∀ i < 7, w2 i = aliasBase.val i) ∧
+      w1 6 = 0 ∧ w2 6 = 0 ∧ w1 0 = 0 ∧ w2 0 = 0 ∧
+      ((componentDecomposition n 6).run aliasBase).2.rowsHoldW w1 0
+        ((componentDecomposition n 6).run aliasBase).2.gates.size ∧
+      ((componentDecomposition n 6).run aliasBase).2.rowsHoldW w2 0
+        ((componentDecomposition n 6).run aliasBase).2.gates.size ∧
+      ((componentDecomposition n 6).run aliasBase).1.head? = some 7 ∧
+      toF (w1 7) = 0 ∧ toF (w2 7) = 1 := by
+  refine decomposition_alias n ?_
+  rcases hn with h | h
+  · omega
+  · rw [h]; decide
+
+/-- the hypotheses are satisfiable (`n = 255`), `aliasBase` is a well-formed state with 7
+    witnesses in which witness 6 holds 0, and the two exhibited bit values are different field
+    elements -/
+example : (∃ w1 w2 : Nat → Nat, w1 6 = 0 ∧ w2 6 = 0 ∧
+      ((componentDecomposition 255 6).run aliasBase).2.rowsHoldW w1 0
+        ((componentDecomposition 255 6).run aliasBase).2.gates.size ∧
+      ((componentDecomposition 255 6).run aliasBase).2.rowsHoldW w2 0
+        ((componentDecomposition 255 6).run aliasBase).2.gates.size ∧
+      toF (w1 7) ≠ toF (w2 7)) ∧
+    WF aliasBase ∧ aliasBase.wit.size = 7 ∧ aliasBase.val 6 = 0 := by
+  obtain ⟨w1, w2, -, -, a, b, -, -, r1, r2, -, e1, e2⟩ :=
+    decomposition_alias_255_256 255 (Or.inl rfl)
+  exact ⟨⟨w1, w2, a, b, r1, r2, by rw [e1, e2]; exact zero_ne_one⟩, aliasBase_wf,
+    aliasBase_wit_size, aliasBase_val_six⟩
+
 end Plonk.Props.C11
